@@ -116,13 +116,22 @@ func (n *CocagoParser) Visitor(f *ast.File, fset *token.FileSet, fileName string
 			currentStruct.NodeName = x.Name.Name
 			currentStruct.Package = currentFile.PackageName
 			//currentStruct.FilePath = BuildImportName(fileName)
-			dsMap[currentStruct.NodeName] = &currentStruct
+			// every type has a cell of its own; its methods may have been declared before it
+			structOfType := currentStruct
+			if declared, ok := dsMap[currentStruct.NodeName]; ok {
+				structOfType.Functions = declared.Functions
+			}
+			dsMap[currentStruct.NodeName] = &structOfType
 		case *ast.StructType:
 			AddStructType(currentStruct.NodeName, x, &currentFile, dsMap)
 		case *ast.FuncDecl:
 			funcType = "FuncDecl"
 			currentFunc, recv := AddFunctionDecl(x, &currentFile)
 			if recv != "" {
+				if dsMap[recv] == nil {
+					// a method declared before the type of its receiver
+					dsMap[recv] = &core_domain.CodeDataStruct{NodeName: recv, Package: currentFile.PackageName}
+				}
 				dsMap[recv].Functions = append(dsMap[recv].Functions, *currentFunc)
 			}
 		case *ast.FuncType:
